@@ -11,9 +11,10 @@ Two layers.
     apply times and with any random sources, ends in the same database (`converge`).
 (2) The store's paths really are such folds: `paths_are_folds` over the node model
     StoreSM (C22/C03/C33 give the restart and recovery legs).
-Known finding kept visible: the SQL-text branch of /db/load does not run the rewriter, so
-the full statement over ALL write endpoints (`C01_full`) is false of a faithful model:
-`converge_partial` + `loadtext_witness`.
+Every write endpoint rewrites (the SQL-text branch of /db/load since fix commit 706f645), so
+the statement over ALL write endpoints holds (`converge_all_endpoints`, `C01_full_holds`);
+`unrewritten_statement_witness` shows what the repaired defect did: a statement that
+reaches the log unrewritten makes a live node and a replaying node differ.
 Tied to the code by the end-to-end differential run in package http (real HTTP service →
 real store → live / replay / snapshot-install on a joining node / recovery, grammar-
 generated SQL with RANDOM(), RANDOMBLOB(), date/time at 'now') and by regenerated facts.
@@ -89,46 +90,54 @@ theorem converge (M : Sem D S) (rs : List (Req S)) (hr : ∀ r ∈ rs, rewrites 
   rw [applyFrom_indep M (log.take k) hit snapshotter live 0 0 d0]
   exact applyFrom_indep M (log.drop k) hid _ _ _ _ _
 
-/-- the property over ALL write endpoints -/
+theorem all_endpoints_rewrite (ep : Endpoint) : rewrites ep = true := by cases ep <;> rfl
+
+/-- **converge_all_endpoints**: no side condition on the endpoint is left — every write
+endpoint runs the rewriter, so every sequence of requests converges on every path -/
+theorem converge_all_endpoints (M : Sem D S) (rs : List (Req S))
+    (d0 : D) (k : Nat) (live replay snapshotter installer : Nat → Env) :
+    let log := logOf M rs
+    applyFrom M replay 0 d0 log = applyFrom M live 0 d0 log ∧
+    applyFrom M installer k (applyFrom M snapshotter 0 d0 (log.take k)) (log.drop k) = applyFrom M live 0 d0 log :=
+  converge M rs (fun r _ => all_endpoints_rewrite r.ep) d0 k live replay snapshotter installer
+
+/-- the property over ALL write endpoints, for the executable instance -/
 def C01_full : Prop :=
   ∀ (rs : List (Req XStmt)) (d0 : Db) (live replay : Nat → Env),
     applyFrom miniSem replay 0 d0 (logOf miniSem rs) = applyFrom miniSem live 0 d0 (logOf miniSem rs)
 
-/-- **converge_partial**: the full statement with the one excluded class made explicit — a
-request may come through the SQL-text load only if its statements do not consult the
-environment by themselves -/
-theorem converge_partial (M : Sem D S) (rs : List (Req S))
-    (hx : ∀ r ∈ rs, r.ep = Endpoint.loadText → ∀ s ∈ r.ss, Indep M s)
+theorem C01_full_holds : C01_full := fun rs d0 live replay =>
+  (converge_all_endpoints miniSem rs d0 0 live replay live live).1
+
+/-- **converge_partial** (kept: it is the form that does not depend on the endpoint table):
+requests may enter through an endpoint that does NOT rewrite as long as their statements
+do not consult the environment by themselves -/
+theorem converge_partial (M : Sem D S) (rw : Endpoint → Bool) (rs : List (Req S))
+    (hx : ∀ r ∈ rs, rw r.ep = false → ∀ s ∈ r.ss, Indep M s)
     (d0 : D) (live replay : Nat → Env) :
-    applyFrom M replay 0 d0 (logOf M rs) = applyFrom M live 0 d0 (logOf M rs) := by
+    let log := rs.flatMap fun r => if rw r.ep then r.ss.map (M.rewrite r.le) else r.ss
+    applyFrom M replay 0 d0 log = applyFrom M live 0 d0 log := by
+  intro log
   apply applyFrom_indep
   intro s hs
   obtain ⟨r, hrm, hsr⟩ := List.mem_flatMap.1 hs
-  by_cases hr : rewrites r.ep = true
-  · exact logged_indep M r.ep hr r.le r.ss s hsr
-  · have hep : r.ep = Endpoint.loadText := by
-      cases h : r.ep <;> simp [h, rewrites] at hr ⊢
-    unfold logged at hsr
-    rw [if_neg hr] at hsr
-    exact hx r hrm hep s hsr
+  by_cases hr : rw r.ep = true
+  · rw [if_pos hr] at hsr
+    obtain ⟨t, _, rfl⟩ := List.mem_map.1 hsr
+    intro e1 e2 d
+    exact M.rewritten_indep r.le t e1 e2 d
+  · rw [if_neg hr] at hsr
+    exact hx r hrm (by simpa using hr) s hsr
 
-/-- **loadtext_witness**: `INSERT … VALUES(random())` sent as a SQL-text load is logged as
-written; a node that applies it live and a node that replays it later hold different
-databases. Hence `C01_full` is false of the faithful model. -/
-theorem loadtext_witness :
-    let rs : List (Req XStmt) := [⟨.loadText, ⟨100, 7⟩, [.put 1 .random]⟩]
-    applyFrom miniSem (fun _ => ⟨100, 7⟩) 0 [] (logOf miniSem rs) = [(1, 7)] ∧
-    applyFrom miniSem (fun _ => ⟨160, 9⟩) 0 [] (logOf miniSem rs) = [(1, 9)] := by decide
-
-theorem C01_full_false : ¬ C01_full := by
-  intro h
-  have := h [⟨.loadText, ⟨100, 7⟩, [.put 1 .random]⟩] [] (fun _ => ⟨100, 7⟩) (fun _ => ⟨160, 9⟩)
-  revert this; decide
-
-/-- the same request through a rewriting endpoint converges (the witness is about the
-endpoint, not about the statement) -/
-example : applyFrom miniSem (fun _ => ⟨100, 7⟩) 0 [] (logOf miniSem [⟨.execute, ⟨100, 7⟩, [.put 1 .random]⟩]) =
-          applyFrom miniSem (fun _ => ⟨160, 9⟩) 0 [] (logOf miniSem [⟨.execute, ⟨100, 7⟩, [.put 1 .random]⟩]) := by
+/-- **unrewritten_statement_witness**: the rewriting is necessary. `INSERT … VALUES(random())`
+that reaches the log as written (what /db/load did with SQL text before the repair) gives a
+live node and a node replaying later different databases; through a rewriting endpoint the
+same request converges. -/
+theorem unrewritten_statement_witness :
+    applyFrom miniSem (fun _ => ⟨100, 7⟩) 0 [] [XStmt.put 1 .random] = [(1, 7)] ∧
+    applyFrom miniSem (fun _ => ⟨160, 9⟩) 0 [] [XStmt.put 1 .random] = [(1, 9)] ∧
+    applyFrom miniSem (fun _ => ⟨100, 7⟩) 0 [] (logOf miniSem [⟨.loadText, ⟨100, 7⟩, [.put 1 .random]⟩]) =
+      applyFrom miniSem (fun _ => ⟨160, 9⟩) 0 [] (logOf miniSem [⟨.loadText, ⟨100, 7⟩, [.put 1 .random]⟩]) := by
   decide
 
 /-! ### the store's apply paths are these folds -/
@@ -151,14 +160,14 @@ theorem paths_are_folds (hist : List C22.Op) (pt : C03.Pt) (dn : C33.Down) (peer
 
 /-! ### regenerated facts -/
 
-/-- every write endpoint except the SQL-text load calls the rewriter before handing the
+/-- every write endpoint, the SQL-text load included, calls the rewriter before handing the
 statements on; `rewrites` is exactly this table -/
 theorem code_write_endpoints :
     RqModel.Gen.StoreOrder.execEndpoint = ["s.queuedExecute", "s.execute"] ∧
     RqModel.Gen.StoreOrder.executeEndpoint = ["sql.Process", "s.proxy.Execute"] ∧
     RqModel.Gen.StoreOrder.queuedExecEndpoint = ["sql.Process", "s.stmtQueue.Write"] ∧
     RqModel.Gen.StoreOrder.requestEndpoint = ["sql.Process", "s.proxy.Request"] ∧
-    RqModel.Gen.StoreOrder.httpLoadSteps = ["db.IsValidSQLiteData", "s.proxy.Load", "s.proxy.Execute"] :=
+    RqModel.Gen.StoreOrder.httpLoadSteps = ["db.IsValidSQLiteData", "s.proxy.Load", "sql.Process", "s.proxy.Execute"] :=
   ⟨rfl, rfl, rfl, rfl, rfl⟩
 
 /-- both code paths that apply log entries to a database go through `CommandProcessor.Process` -/
